@@ -68,8 +68,13 @@ def cons_json(c):
         kind, body = "primary", ",".join(col.name for col in c.columns)
     else:
         kind, body = "check", str(c.sqltext)
+    ref_schema = None
+    if vn == "foreign_key_constraint":
+        # referent_schema: what the target specification says ("s3.other.id" -> "s3")
+        parts = c.elements[0].target_fullname.split(".")
+        ref_schema = ".".join(parts[:-2]) if len(parts) > 2 else None
     return {"kind": kind, "name": name_or_none(c.name), "table": tb.name, "schema": tb.schema, "body": body,
-            "deferrable": c.deferrable, "initially": c.initially}
+            "deferrable": c.deferrable, "initially": c.initially, "refSchema": ref_schema}
 
 
 def kw_json(kw):
